@@ -140,6 +140,10 @@ func gen(r *rand.Rand) WL {
 		w.Fault = Fault{Kind: "cursor_err", K: 1 + r.IntN(6)}
 	case x < 15:
 		w.Fault = Fault{Kind: "memlimit"}
+		if r.IntN(2) == 0 {
+			// a limit that the growing path tree crosses somewhere in the middle of the traversal
+			w.Fault = Fault{Kind: "memlimit_mid", K: 300 + r.IntN(4000)}
+		}
 	case x < 18:
 		w.Fault = Fault{Kind: "cancel", K: 1 + r.IntN(120)}
 	default:
@@ -406,6 +410,8 @@ func execBFS(t *testing.T, w WL, cfg simrt.Config) simh.Outcome {
 			s.Plan("cursor_err", w.Fault.K)
 		case "memlimit":
 			db.MemLimit = 1
+		case "memlimit_mid":
+			db.MemLimit = size.Size(w.Fault.K)
 		case "cancel":
 			s.OnStep = func(step int) {
 				if step == w.Fault.K {
@@ -452,7 +458,7 @@ func execBFS(t *testing.T, w WL, cfg simrt.Config) simh.Outcome {
 	fired := func(k string) bool { return res.Faults[k] > 0 }
 	got, want := multiset(rec.visits), multiset(refV)
 	gotT, wantT := multiset(rec.terminal), multiset(refT)
-	anyFault := fired("driver_err") || fired("visitor_err") || fired("tx_err") || fired("cursor_err") || fired("cancel") || w.Fault.Kind == "memlimit" || w.Fault.Kind == "deadline"
+	anyFault := fired("driver_err") || fired("visitor_err") || fired("tx_err") || fired("cursor_err") || fired("cancel") || w.Fault.Kind == "memlimit" || w.Fault.Kind == "memlimit_mid" || w.Fault.Kind == "deadline"
 	if d := diffMultiset(got, want, anyFault); d != "" {
 		o.Class, o.Detail = "oracle:visits", d
 		return o
@@ -472,6 +478,15 @@ func execBFS(t *testing.T, w WL, cfg simrt.Config) simh.Outcome {
 		if retErr == nil || !errors.Is(retErr, ops.ErrGraphQueryMemoryLimit) {
 			o.Class, o.Detail = "oracle:memlimit", fmt.Sprintf("memory limit of 1 byte but BreadthFirst returned %v", retErr)
 		}
+	case w.Fault.Kind == "memlimit_mid":
+		// where exactly the estimate crosses the limit is not asserted (it is an estimate); only that the
+		// call returns, with nothing but the limit error, and invents or repeats nothing
+		if retErr != nil && !errors.Is(retErr, ops.ErrGraphQueryMemoryLimit) {
+			o.Class, o.Detail = "oracle:memlimit", fmt.Sprintf("a memory limit of %d bytes produced the unrelated error %v", w.Fault.K, retErr)
+		}
+		if retErr != nil {
+			counters["memlimit_tripped_mid_traversal"]++
+		}
 	case fired("cancel") || w.Fault.Kind == "deadline":
 		// only prompt return and no leak are asserted (the code filters context errors)
 		if retErr != nil && errors.Is(retErr, errInjected) {
@@ -485,7 +500,7 @@ func execBFS(t *testing.T, w WL, cfg simrt.Config) simh.Outcome {
 			o.Class, o.Detail = "oracle:spurious_error", fmt.Sprintf("fault-free traversal returned %v", retErr)
 		}
 	}
-	if w.MemHuge && w.Fault.Kind != "memlimit" && retErr != nil && errors.Is(retErr, ops.ErrGraphQueryMemoryLimit) {
+	if w.MemHuge && w.Fault.Kind != "memlimit" && w.Fault.Kind != "memlimit_mid" && retErr != nil && errors.Is(retErr, ops.ErrGraphQueryMemoryLimit) {
 		o.Class, o.Detail = "oracle:memlimit", "memory limit error with a 1 TiB limit"
 	}
 	return o
@@ -709,7 +724,7 @@ func shrink(w WL) []WL {
 		c.Pattern = w.Pattern[:len(w.Pattern)-1]
 		res = append(res, c)
 	}
-	if w.Fault.Kind != "" && w.Fault.Kind != "memlimit" {
+	if w.Fault.Kind != "" && w.Fault.Kind != "memlimit" && w.Fault.Kind != "memlimit_mid" {
 		c := w
 		c.Fault = Fault{}
 		res = append(res, c)
